@@ -264,6 +264,28 @@ def check_newline_transparency(prog: Program, res: Result, rule: str) -> None:
             else:
                 res.fail(rule, file=mod.relpath, line=c.lineno, qualname=q, construct=f"{norm(c, 60)} with newline={norm(nl)}", message=f"the output buffer is built with newline={norm(nl)}: CR / CRLF written by the template are rewritten", what=what)
     res.floor(rule, "output buffer constructions", n_ctor, 3)
+    # ... and neither do the loaders when they read a template file
+    n_read = 0
+    for mod in prog.modules.values():
+        if not mod.relpath.startswith("liquid2/builtin/loaders/") and mod.relpath != "liquid2/loader.py":
+            continue
+        for c in ast.walk(mod.tree):
+            if not isinstance(c, ast.Call):
+                continue
+            fname = c.func.attr if isinstance(c.func, ast.Attribute) else (c.func.id if isinstance(c.func, ast.Name) else "")
+            if fname not in ("open", "read_text"):
+                continue
+            n_read += 1
+            q = prog.qual_at(mod, c)
+            what = f"`{norm(c, 60)}` reads the template without translating line endings"
+            nl = next((k.value for k in c.keywords if k.arg == "newline"), None)
+            mode = next((a for a in c.args if isinstance(a, ast.Constant) and isinstance(a.value, str) and set(a.value) <= set("rwabt+x")), None)
+            binary = mode is not None and "b" in mode.value
+            if fname == "open" and (binary or (isinstance(nl, ast.Constant) and nl.value == "")):
+                res.ok(rule, f"{mod.relpath}:{c.lineno} {q}", what, "newline=''" if not binary else "binary mode")
+            else:
+                res.fail(rule, file=mod.relpath, line=c.lineno, qualname=q, construct=f"{norm(c, 60)} with universal newlines", message=f"`{norm(c, 60)}` reads a template file with universal-newline translation: CR and CRLF in literal text and inside string literals become LF, unlike the same source given to from_string()", what=what)
+    res.floor(rule, "template file reads in the loaders", n_read, 2)
 
 
 def check_buffer_factories_fresh(prog: Program, res: Result, rule: str) -> None:
